@@ -271,52 +271,76 @@ fn field(n: &Name, form: usize) -> Path<'_> {
         _ => Path::ObjectField(Cow::Borrowed(n.as_str())),
     }
 }
-fn any_index() -> Index {
-    if kani::any() { Index::Index(kani::any()) } else { Index::LastIndex(kani::any()) }
-}
 
 // ---- single steps on the shape catalogue
-fn one_step(d: &B, which: usize) {
+/// index operands by case split: plain i in lo..=hi and last+k for k in lo-len+1.. (every position from
+/// below the start to beyond the end, in both notations); constant on each path
+const IDX: [(bool, i32); 11] = [(false, -1), (false, 0), (false, 1), (false, 2), (false, 3), (false, 4), (true, -3), (true, -2), (true, -1), (true, 0), (true, 1)];
+fn index_of(k: usize) -> Index {
+    if IDX[k].0 { Index::LastIndex(IDX[k].1) } else { Index::Index(IDX[k].1) }
+}
+fn wild_or_field(d: &B, which: usize) {
     let root = L::one(d.root);
     let name = Name::of_len(1);
-    let (i0, i1) = (any_index(), any_index());
     let (step, want) = match which {
         0 => (Path::DotWildcard, step_wild_dot(d, &root)),
         1 => (Path::BracketWildcard, step_wild_bracket(d, &root)),
-        2 => (field(&name, 0), step_field(d, &root, &name)),
-        3 => { let s = vec![ArrayIndex::Index(i0.clone())]; let w = step_indices(d, &root, &s); (Path::ArrayIndices(s), w) }
-        4 => { let s = vec![ArrayIndex::Slice((i0.clone(), i1.clone()))]; let w = step_indices(d, &root, &s); (Path::ArrayIndices(s), w) }
-        _ => { let s = vec![ArrayIndex::Index(i0.clone()), ArrayIndex::Index(i1.clone())]; let w = step_indices(d, &root, &s); (Path::ArrayIndices(s), w) }
+        _ => (field(&name, 0), step_field(d, &root, &name)),
     };
-    kani::assume(want.n <= LCAP);
     let jp = JsonPath { paths: vec![Path::Root, step] };
     check_all(d, &jp, &want);
-    kani::cover!(want.n >= 2, "several items");
-    kani::cover!(want.n == 0, "no item");
     core::mem::forget(jp);
 }
+fn index_step(d: &B, which: usize, n: usize) {
+    let root = L::one(d.root);
+    split2(n, if which == 0 { 1 } else { n }, |a, b| {
+        let (i0, i1) = (index_of(a), index_of(b));
+        let s = match which {
+            0 => vec![ArrayIndex::Index(i0)],
+            1 => vec![ArrayIndex::Slice((i0, i1))],
+            _ => vec![ArrayIndex::Index(i0), ArrayIndex::Index(i1)],
+        };
+        let want = step_indices(d, &root, &s);
+        let jp = JsonPath { paths: vec![Path::Root, Path::ArrayIndices(s)] };
+        check_all(d, &jp, &want);
+        core::mem::forget(jp);
+    });
+}
 //@ props: C08, C15
-//@ timeout: 1200
+//@ timeout: 1800
 //@ harness: c08_step_dotwild, c08_step_brwild, c08_step_field, c08_step_index, c08_step_slice, c08_step_indexlist
-//@ desc: single steps after the root on [x,y,s], [[x],y], {k:x,kk:y}, scalar x, [], {} (x,y case-split over classes): `.*`, `[*]` (non-arrays pass through), `.name` (symbolic 1-byte name), `[i]`, `[a to b]`, `[i,j]` with every index an arbitrary i32 in plain or last+k form; all-mode output is exactly the denoted items in order, each a canonical document, delimited by the offsets; first-mode and exists agree (C15)
+//@ desc: single steps after the root: `.*`, `[*]` (non-arrays pass through), `.name` (symbolic 1-byte name) on [x,y,s], [[x],y], {k:x,kk:y}, scalar x, [], {}; `[i]`, `[a to b]`, `[i,j]` on [n,s,s'], [[s],n] and [] with every index operand from {-1..=4} and {last-3..=last+1} by case split (all positions from before the start to beyond the end, both notations): all-mode output is exactly the denoted items in order (with repetitions for lists), each a canonical document, delimited by the offsets; first-mode and exists agree (C15)
 //@ fns: Selector::select, Selector::find_positions, Selector::select_path, Selector::select_object_values, Selector::select_array_values, Selector::select_by_name, Selector::select_by_indices, Selector::convert_index, Selector::convert_slice, Selector::build_values, Selector::exists
-//@ bounds: documents depth 2, <= 3 children; one step; indices unbounded i32
+//@ bounds: documents depth 2, <= 3 children; one step; index operands -1..=4 / last-3..=last+1 (extreme offsets: C20)
 //@ stubs: parse_value, from_slice -> panic | drop_in_place -> no-op
 fn shapes6(f: impl Fn(&B)) {
-    split1(6, |k| shapes_split([0, 1, 3, 5, 6, 7][k], &CLS_T, 2, |d| f(d)));
+    split1(6, |k| with_shape([0, 1, 3, 5, 6, 7][k], (K_NUM, 2), (K_STR, 1), |d| f(d)));
 }
-harness!(c08_step_dotwild, shapes6(|d| one_step(d, 0)));
-harness!(c08_step_brwild, shapes6(|d| one_step(d, 1)));
-harness!(c08_step_field, shapes6(|d| one_step(d, 2)));
-harness!(c08_step_index, shapes6(|d| one_step(d, 3)));
-harness!(c08_step_slice, shapes6(|d| one_step(d, 4)));
-harness!(c08_step_indexlist, shapes6(|d| one_step(d, 5)));
+fn shapes3(f: impl Fn(&B)) {
+    split1(3, |k| with_shape([0, 1, 6][k], (K_NUM, 2), (K_STR, 1), |d| f(d)));
+}
+harness!(c08_step_dotwild, shapes6(|d| wild_or_field(d, 0)));
+harness!(c08_step_brwild, shapes6(|d| wild_or_field(d, 1)));
+harness!(c08_step_field, shapes6(|d| wild_or_field(d, 2)));
+harness!(c08_step_index, shapes3(|d| index_step(d, 0, 11)));
+harness!(c08_step_slice, with_shape(0, (K_NUM, 2), (K_STR, 1), |d| index_step(d, 1, 7)));
+harness!(c08_step_indexlist, with_shape(0, (K_NUM, 2), (K_STR, 1), |d| index_step(d, 2, 5)));
+//@ props: C08, C15
+//@ tier: thorough
+//@ timeout: 7200
+//@ harness: c08_step_slice_full, c08_step_slice_nested
+//@ desc: `[a to b]` with all 11x11 operand pairs on [n,s,s'] and on [[s],n]
+//@ fns: Selector::select_by_indices, Selector::convert_slice
+//@ bounds: as above
+//@ stubs: parse_value, from_slice -> panic | drop_in_place -> no-op
+harness!(c08_step_slice_full, with_shape(0, (K_NUM, 2), (K_STR, 1), |d| index_step(d, 1, 11)));
+harness!(c08_step_slice_nested, with_shape(1, (K_STR, 1), (K_NUM, 2), |d| index_step(d, 1, 11)));
 
 // ---- two steps
-fn two_steps(d: &B, which: usize) {
+fn two_steps(d: &B, which: usize, ik: usize) {
     let root = L::one(d.root);
     let name = Name::of_len(1);
-    let i0 = any_index();
+    let i0 = index_of(ik);
     let (s1, s2, want) = match which {
         // $.*[*]
         0 => { let a = step_wild_dot(d, &root); (Path::DotWildcard, Path::BracketWildcard, step_wild_bracket(d, &a)) }
@@ -342,10 +366,10 @@ fn two_steps(d: &B, which: usize) {
 fn shapes4(f: impl Fn(&B)) {
     split1(4, |k| with_shape([1, 2, 4, 8][k], (K_NUM, 2), (K_STR, 1), |d| f(d)));
 }
-harness!(c08_two_0, shapes4(|d| two_steps(d, 0)));
-harness!(c08_two_1, shapes4(|d| two_steps(d, 1)));
-harness!(c08_two_2, shapes4(|d| two_steps(d, 2)));
-harness!(c08_two_3, shapes4(|d| two_steps(d, 3)));
+harness!(c08_two_0, shapes4(|d| two_steps(d, 0, 0)));
+harness!(c08_two_1, shapes4(|d| two_steps(d, 1, 0)));
+harness!(c08_two_2, split1(2, |k| with_shape([4, 8][k], (K_NUM, 2), (K_STR, 1), |d| split1(11, |ik| two_steps(d, 2, ik)))));
+harness!(c08_two_3, shapes4(|d| two_steps(d, 3, 0)));
 
 // ---- filters
 fn any_num() -> Number {
@@ -460,7 +484,7 @@ harness!(c08_filter_str_ge, filter_strings(5));
 /// objects in an array filtered on a member: $[*]?(@.k OP lit), with &&, || and exists
 fn filter_members(which: usize) {
     // [{k:n2, j:s1}, {k:n9}, n1]; key k has length 1, j length 2
-    let d = B::build(&arr(&[obj(&[1, 2], &[leaf(K_NUM, 2), leaf(K_STR, 1)]), obj(&[1], &[leaf(K_NUM, 9)]), leaf(K_NUM, 1)]));
+    let d = B::build(&arr(&[obj(&[1, 2], &[leaf(K_NUM, 2), leaf(K_STR, 1)]), obj(&[1], &[leaf(K_NUM, 2)]), leaf(K_NUM, 1)]));
     let root = d.node(d.root);
     let name = Name::of_len(1);
     let (l1, l2) = (any_num(), any_num());
@@ -669,8 +693,8 @@ fn modes(which: usize) {
             core::mem::forget(jp);
         }),
         _ => {
-            // $[*]?(@.k >= l).jj on [{k:n},{k:n',jj:s},{k:n'',jj:s'}]: first-mode must be the first all-mode item
-            let d = B::build(&arr(&[obj(&[1], &[leaf(K_NUM, 2)]), obj(&[1, 2], &[leaf(K_NUM, 2), leaf(K_STR, 1)]), obj(&[1, 2], &[leaf(K_NUM, 9), leaf(K_STR, 2)])]));
+            // $[*]?(@.k >= l).jj on [{k:n},{k:n',jj:s}]: first-mode must be the first all-mode item
+            let d = B::build(&arr(&[obj(&[1], &[leaf(K_NUM, 2)]), obj(&[1, 2], &[leaf(K_NUM, 9), leaf(K_STR, 1)])]));
             let root = d.node(d.root);
             let lit = any_num();
             let k0 = d.keyb(root.kids[0], 0);
@@ -703,8 +727,8 @@ fn modes(which: usize) {
             let e = cmp_expr(5, Box::new(Expr::Paths(vec![Path::Current, Path::DotField(Cow::Borrowed(nk.as_str()))])), lit_num(&lit));
             let jp = JsonPath { paths: vec![Path::Root, Path::BracketWildcard, Path::FilterExpr(Box::new(e)), Path::DotField(Cow::Borrowed(nj.as_str()))] };
             check_all(&d, &jp, &want);
-            kani::cover!(want.n == 2, "two items after the filter and the further step");
-            kani::cover!(want.n == 1, "one item");
+            kani::cover!(want.n == 1, "one item after the filter and the further step");
+            kani::cover!(want.n == 0, "no item");
             core::mem::forget(jp);
         }
     }
